@@ -94,6 +94,15 @@ func ruleMirror(p *Program, r *Result) {
 			if !ok || f.Name() != name {
 				return false
 			}
+			// a local copy of the stored header (prev := r.header) stands for it
+			if a, isAlloc := hb.(*ssa.Alloc); isAlloc {
+				st := allocStores(a)
+				if len(st) == 1 && spillUnmodified(a) {
+					if u, isLoad := st[0].Val.(*ssa.UnOp); isLoad && u.Op == token.MUL {
+						hb = u.X
+					}
+				}
+			}
 			hf, base, ok := fieldAddrOf(hb)
 			return ok && typeIs(hf.Type(), modPath, "Header") && base == ssa.Value(recv)
 		}
